@@ -111,13 +111,27 @@ func c06(r *hx.Run) {
 				// one processor instance, then the operation store starts failing: a resolution during the outage is an error (or,
 				// should an implementation remember operations, the right answer) - never the view of the earlier cut
 				if T >= 0 && len(kept) > 0 && len(kept) < len(placed) {
-					fs := &c06FlakyStore{}
+					// the store hands out its OWN slice (with spare capacity), as simple stores do: a cut resolution must not disturb it
+					fs := &c06FlakyStore{ops: make([]*operation.AnchoredOperation, 0, len(placed)+4)}
+					var un unpubStore
 					for _, pl := range placed {
 						if pl.Published {
 							fs.ops = append(fs.ops, pl.Anchored(pool.Suffix))
+						} else {
+							un = append(un, pl.Anchored(pool.Suffix))
 						}
 					}
 					allPublished := len(fs.ops) == len(placed)
+					if !allPublished && len(fs.ops) > 0 {
+						proc := processor.New("verif", fs, client, processor.WithUnpublishedOperationStore(un))
+						_, _ = proc.Resolve(pool.Suffix, document.WithVersionTime(ts))
+						again := projectHist(proc.Resolve(pool.Suffix))
+						r.Eval()
+						if full := projectHist(ResolveImpl(client, pool.Suffix, placed)); again != full {
+							r.Violation("cut-resolution-disturbs-the-store:"+diffFields(again.R, full.R), caseID+"|second-resolution",
+								fmt.Sprintf("history %v: after a resolution at versionTime %s the same processor / store resolves the current state differently from a fresh one\n  second: %s pub=[%s] unpub=[%s]\n  fresh : %s pub=[%s] unpub=[%s]", placedDesc(placed), ts, again.R, again.Pub, again.Unpub, full.R, full.Pub, full.Unpub), nil)
+						}
+					}
 					if allPublished {
 						proc := processor.New("verif", fs, client)
 						_, _ = proc.Resolve(pool.Suffix, document.WithVersionTime(ts))
